@@ -48,12 +48,16 @@ def run(chk):
         cases.append("authallow %s %d %s" % (",".join(map(str, allow)) or "-", rng.choice([1, 1, 4]), " ".join(reqs)))
     # a third of the allow-list requests also carry one of the extensions the library attaches elsewhere (a Direction, a
     # ConnectionOrigin): none of them is the sender's identity, the verdict is the same (the model gets the plain request)
+    # ('h': headers naming a listed peer's identity under every candidate header name: the library's own string literals
+    # and the usual suspects; an identity claimed in the message is not the sender's identity)
+    import os, simnet
+    os.environ["VERIF_ID_HEADERS"] = ",".join(x.encode().hex() for x in simnet.identity_header_names() + ["sender", "sender-id", "sender-peer-id", "x-sender-peer-id"])
     def decorate(c):
         t = c.split()
         if not t[0].startswith("authallow"):
             return c
         k = 4 if t[0] == "authallow2" else 3
-        return " ".join(t[:k] + [(r + chk.rng.choice("oic")) if chk.rng.random() < 0.33 else r for r in t[k:]])
+        return " ".join(t[:k] + [(r + chk.rng.choice("oichh")) if chk.rng.random() < 0.4 else r for r in t[k:]])
     sent = [decorate(c) for c in cases]
     ci = run_impl("layers", sent)
     # stacked allow-lists: the model is the single layer with the intersection of the two lists
@@ -123,7 +127,7 @@ def replay(chk, path):
     if not chk.prepare():
         return
     import re
-    plain = [re.sub(r"\b(s\d+|n)[oic]\b", r"\1", c) for c in cases]     # the model gets the requests without their decorations
+    plain = [re.sub(r"\b(s\d+|n)[oich]\b", r"\1", c) for c in cases]     # the model gets the requests without their decorations
     for c, a, b in zip(cases, run_impl("layers", cases), run_model(plain)):
         log("case:  %s\nimpl:  %s\nmodel: %s" % (c, a, b))
         if a != b:
